@@ -348,6 +348,10 @@ type MemStore struct {
 	Cur     *session.Session
 	Stores  []session.Session
 	LoadErr error
+	// FailAt: the FailAt-th call of Store (1-based) fails and stores nothing (a full disk for a moment);
+	// Attempts counts all calls.
+	FailAt   int
+	Attempts int
 }
 
 func (m *MemStore) Load() (*session.Session, error) {
@@ -366,6 +370,10 @@ func (m *MemStore) Load() (*session.Session, error) {
 func (m *MemStore) Store(s *session.Session) error {
 	m.mu.Lock()
 	defer m.mu.Unlock()
+	m.Attempts++
+	if m.Attempts == m.FailAt {
+		return errors.New("session store: no space left on device (injected)")
+	}
 	c := *s
 	c.Key = append([]byte{}, s.Key...)
 	c.Hash = append([]byte{}, s.Hash...)
